@@ -1089,8 +1089,8 @@ Print Assumptions C07_codegen_simulates_heap_example_wide_runs.
      imm_guard_a64     a type declares at most 1024 xtors (the table dispatch `ADD Xt, Xt, #4k` has a 12-bit immediate:
                        a real limit of the back end, docs/C14.md), a Substitute lists at most 4096 pairs; tags_i64
                        follows and is dropped
-     reach_guard_a64   28 + 85 * cg_bound_defs < 262143: the routine is shorter than the reach of B.cond / ADR (a real
-                       limit of the back end) and fits the image
+     reach_guard_a64   28 + cg_fine_defs 14 74 < 262143 instructions: the routine is shorter than the reach of B.cond /
+                       ADR (a real limit of the back end) and fits the image
    The name without `_partial` follows the x86-64 convention (C06_codegen_simulates): what remains besides guards on the
    program is ann_check_prog (a theorem for every output of the linearizer) and heap_fits (a bound along the run). *)
 From SCC Require Import Sem.LabelGuard Sem.WfGuard64 Proof.A64WfCor.
